@@ -10,7 +10,7 @@ from simkit import editor as E
 PROP = "C12"
 LEVEL = "exploration"
 BUDGET = {"quick": 150, "thorough": 900}
-RULE = ("Operation histories over a pool of 4 names (ASCII, non-ASCII, with a space, bytes-typed) and 6 simple definitions (incl. filters whose only condition is false / true): "
+RULE = ("Operation histories over a pool of 6 names (ASCII, non-ASCII, with a space, bytes-typed, an NFD/NFC pair) and 6 simple definitions (incl. filters whose only condition is false / true): "
         "add / update (onto self, existing, new) / replace (content from getfilter, with and without new name and "
         "description) / remove / enable / disable / move up|down, checked against a list model after every step. All "
         "histories up to length 3 (quick) / 4 (thorough) over an alphabet of 18 operations on 2 names are enumerated "
@@ -22,7 +22,7 @@ COMPONENTS = {"real": ["sievelib.factory.FiltersSet", "sievelib.commands (serial
 ASSUMPTIONS = ["the return value of disabling an already disabled / enabling an already enabled filter is unconstrained",
                "definitions need no escaping (hostile values are C06's)"]
 
-NAMES = ["a", "Ünï", "with space", b"bytes-name"]
+NAMES = ["a", "Ünï", "with space", b"bytes-name", "e\u0301t\u00e9", "\u00e9t\u00e9"]   # the last two differ only by Unicode normalisation
 DEFS = [
     ([("Subject", ":contains", "x")], [("fileinto", "F")], "anyof"),
     ([("size", ":over", "100k"), ("notexists", "X-A", "X-B")], [("redirect", ":copy", "a@b.c"), ("stop",)], "allof"),
